@@ -11,7 +11,7 @@ ID = 'C13'
 LEVEL = 'model_checking'
 TITLE = 'Data bit stream is terminated and padded as ISO 7.4.9/7.4.10 require'
 RULE = ('for every (version, level) x mode in {numeric, alphanumeric, byte, kanji} x lengths {0..12} + {max-14..max} the symbol is built '
-        '(fixed mask, boost off) and the complete data bit stream read back is compared bit by bit with the reference stream model; '
+        '(fixed mask; boost off, and boost on where it raises the level) and the complete data bit stream read back is compared bit by bit with the reference stream model; '
         'state = (version, level, residue of terminated length mod 8, distance to capacity capped at 13); non-trivial = symbol returned')
 BOUNDS = {'quick': 'Micro + versions 1-10, 26, 27, 40', 'thorough': 'all 44 versions, two data variants, plus multi-part and Structured Append symbols'}
 ASSUMPTIONS = ['qrref stream model (reproduces ISO Annex I examples bit for bit in the self-test)']
@@ -101,6 +101,16 @@ def one(v, lvl, mode, n, variant, acc):
             acc.violation('refused-fitting', 'content of %d %s characters fits %s-%s but was refused: %s' % (n, mode, v, lvl, str(e)[:60]), case)
         return
     judge(qr, [(mode, data, None)], v, lvl, acc, case)
+    # the same content with error-level boosting (the default): padding must follow the level actually used
+    if lvl is not None and lvl != T.levels_of(v)[-1]:
+        kw2 = dict(version=v, error=lvl, mode=mode, mask=(n + variant) % 4)
+        try:
+            q2 = segno.make(content if n else (b'' if mode == 'byte' else content), **kw2)
+        except C.REFUSALS:
+            return
+        if q2.error != lvl and q2.version == v:
+            acc.count('boosted')
+            judge(q2, [(mode, data, None)], v, q2.error, acc, ('boost', v, lvl, mode, n, variant))
 
 
 def run_case(case, acc):
@@ -112,7 +122,7 @@ def run_case(case, acc):
                 continue
             for variant in range(nvar):
                 one(v, lvl, mode, n, variant, acc)
-    elif kind == 'one':
+    elif kind in ('one', 'boost'):
         one(*case[1:], acc)
     elif kind == 'multi':
         _, v, lvl = case
